@@ -12,7 +12,10 @@ RULE = (
     "nodes; every graph input gets a random non-empty combination of run-time value x binding x signature default; "
     "run-time select narrowing leaves nodes unsatisfiable; in half of the programs some nodes have their own input "
     "names permuted by with_inputs - a swap or 3-cycle in one call or through a temporary name - and their outputs "
-    "swapped, defaults moved along), each run in original and shuffled node order under the "
+    "swapped, defaults moved along; a quarter of the programs have one dependency-closed group wrapped as a nested "
+    "graph, with the narrowing then configured by select() on the graph as often as passed to run(); every eighth "
+    "program is a mapping node around a small DAG whose inner graph binds a broadcast input that the caller "
+    "overrides or not), each run in original and shuffled node order under the "
     "sync and async runner and compared with RefEval (values, last-invocation arguments, exactly-once set, "
     "never-run set). A case is non-trivial when at least 2 node functions were observed entering and the "
     "result has at least one value; distinct = distinct canonical shape (kinds, arities, wiring, defaults, bindings, "
@@ -97,13 +100,47 @@ def run(ctx):
         return
     for i in range(n):
         rng = ctx.rng
+        if i % 8 == 7:
+            # a mapping node around a small DAG whose inner graph binds a broadcast input; the caller overrides the
+            # binding in 60% of the cases (run-time value > bound value, also through the map pipeline)
+            from hgmon import families
+
+            fam = families.mapped(rng, err="raise")
+            sub = fam["spec"]["nodes"][0]
+            bcast = [k for k in fam["inputs"] if k not in fam["over"]]
+            provided = dict(fam["inputs"])
+            if bcast:
+                b = rng.choice(bcast)
+                sub["prog"].setdefault("bind", {})[b] = f"bound:{b}"
+                if rng.random() < 0.4:
+                    del provided[b]
+            ok = False
+            for runner in ("sync", "async"):
+                out = check_case(ctx, fam["spec"], provided, None, runner, "mapped")
+                ok = ok or (out is not None and bool(out.values))
+            ctx.obs["mapped_programs"] += 1
+            ctx.case({"s": gen.shape_of(fam["spec"]), "p": sorted(provided), "mapped": True}, ok)
+            continue
         spec = gen.gen_dag(rng)
         bind, provided = gen.assign_sources(rng, spec)
         spec["bind"] = bind
         if rng.random() < 0.5:
             ctx.obs["programs_with_permuted_wiring"] += 1 if gen.permute_wiring(rng, spec) else 0
+        graph_level_select = False
+        if rng.random() < 0.25:
+            # one dependency-closed group wrapped as a nested graph (bindings may move inside): still acyclic and
+            # gate-free, every argument still comes from edge > run-time value > binding > default
+            res = gen.nest_once(rng, spec, "grp", allow_select=False)
+            if res:
+                spec = res[1]
+                ctx.obs["programs_with_nested_group"] += 1
+                graph_level_select = rng.random() < 0.5
+                req0, opt0 = ref.ref_inputs(spec)
+                provided = {k: v for k, v in provided.items() if k in req0 or k in opt0}
+                for r in req0:
+                    provided.setdefault(r, f"run:{r}")
         select = None
-        if rng.random() < 0.35:
+        if rng.random() < (0.6 if graph_level_select else 0.35):
             outs = [e for ns in spec["nodes"] for e in ref.data_output_names(ns)]
             if outs:
                 select = rng.sample(outs, rng.randint(1, min(2, len(outs))))
@@ -113,6 +150,11 @@ def run(ctx):
                 for r in req:
                     if r not in provided and r not in bind:
                         provided[r] = f"run:{r}"
+        if graph_level_select and select:
+            # the same narrowing configured on the graph (select()) instead of passed to run()
+            spec = {**spec, "select": list(select)}
+            select = None
+            ctx.obs["graph_level_select"] += 1
         variants = [("orig", spec), ("shuffled", gen.shuffled(rng, spec))]
         nontrivial = False
         for label, s in variants:
